@@ -3,6 +3,8 @@ package checks
 import (
 	"bytes"
 	"fmt"
+	"os"
+	"os/exec"
 	"reflect"
 	"runtime"
 	"sync"
@@ -12,6 +14,8 @@ import (
 	"unsafe"
 
 	"github.com/philpearl/avro"
+	avronull "github.com/philpearl/avro/null"
+	avrotime "github.com/philpearl/avro/time"
 	"pgregory.net/rapid"
 
 	"verifh/cat"
@@ -26,7 +30,7 @@ import (
 
 const c12Rule = "rapid draws of N in 2..8 goroutine programs of 5-40 ops over {SchemaForType+Marshal, Schema.Codec construction, Register+RegisterSchema of a goroutine-private type and use of it, " +
 	"decode with a SHARED codec into a private target, encode with a SHARED codec into a private WriteBuf, ReadFile of a whole file, writing a whole file with a private Encoder[T], closing banks received over a channel from other goroutines, " +
-	"timestamp parsing with fresh and repeated zone offsets}, drawn runtime.Gosched() points, a start barrier; run under the race detector (-race, halt_on_error); " +
+	"timestamp parsing with fresh and repeated zone offsets}, drawn runtime.Gosched() points, a start barrier; plus 40 (thorough 150 per shard) fresh processes in which 8 goroutines make the very first RegisterCodecs() calls at once and use the types immediately; run under the race detector (-race, halt_on_error); " +
 	"oracle: every op's result equals the result precomputed sequentially for the same op, and the race detector reports nothing; " +
 	"non-trivial = >= 3 goroutines and >= 2 op kinds that touch the same shared structure (registry, bank pool, time-zone cache, one codec); distinct by case JSON hash. " +
 	"Interleavings are sampled by the Go scheduler, the harness does not own the schedule."
@@ -497,4 +501,114 @@ func TestC12(t *testing.T) {
 	col := stats.New("C12")
 	col.Rule = c12Rule
 	propCheck(t, col, "c12", drawC12, runC12)
+}
+
+// ---------------------------------------------------------------------------
+// First use: in a FRESH process several goroutines make the first calls to the
+// library packages' RegisterCodecs() at the same time and use the registered
+// types straight away. Each must see what it would see running alone: once its
+// own RegisterCodecs() call has returned, the registrations are in force.
+
+type c12FreshCase struct {
+	Attempts   int `json:"attempts"`
+	Goroutines int `json:"goroutines"`
+}
+
+func init() {
+	registerReplay("c12-fresh", func(c c12FreshCase) error { return c12Fresh(c, nil) })
+}
+
+func c12FreshExpect() (string, error) {
+	s, err := avro.SchemaForType(cat.Registered{})
+	if err != nil {
+		return "", err
+	}
+	b, err := s.Marshal()
+	return string(b), err
+}
+
+func c12Fresh(c c12FreshCase, col *stats.Collector) error {
+	want, err := c12FreshExpect()
+	if err != nil {
+		return fmt.Errorf("VERIF-INCONCLUSIVE %v", err)
+	}
+	for i := 0; i < c.Attempts; i++ {
+		cmd := exec.Command(os.Args[0], "-test.run", "^TestC12FreshWorker$", "-test.v")
+		cmd.Env = append(os.Environ(), "VERIF_FRESH_REG=1", "VERIF_FRESH_EXPECT="+want, fmt.Sprintf("VERIF_FRESH_N=%d", c.Goroutines), "VERIF_OUT=")
+		out, err := cmd.CombinedOutput()
+		if col != nil {
+			col.RecordKey(uint64(i)+0xf4e5<<16, true)
+		}
+		if err != nil {
+			msg := string(out)
+			if len(msg) > 3000 {
+				msg = msg[len(msg)-3000:]
+			}
+			return fmt.Errorf("fresh process %d: %d goroutines calling RegisterCodecs() for the first time concurrently: %v\n%s", i, c.Goroutines, err, msg)
+		}
+	}
+	return nil
+}
+
+func TestC12Fresh(t *testing.T) {
+	col := stats.New("C12")
+	col.Rule = c12Rule
+	defer col.Flush()
+	n := 40
+	if thorough() {
+		n = 150
+	}
+	c := c12FreshCase{Attempts: n, Goroutines: 8}
+	if err := c12Fresh(c, col); err != nil {
+		failCase(t, "C12", "c12-fresh", c12FreshCase{Attempts: 300, Goroutines: 8}, err)
+	}
+	col.Label("fresh_process_first_use")
+}
+
+func TestC12FreshWorker(t *testing.T) {
+	if os.Getenv("VERIF_FRESH_REG") != "1" {
+		t.Skip("only as a child of TestC12Fresh")
+	}
+	want := os.Getenv("VERIF_FRESH_EXPECT")
+	n := 8
+	fmt.Sscan(os.Getenv("VERIF_FRESH_N"), &n)
+	start := make(chan struct{})
+	errs := make(chan error, n)
+	var wg sync.WaitGroup
+	for g := 0; g < n; g++ {
+		wg.Add(1)
+		go func(g int) {
+			defer wg.Done()
+			<-start
+			if g%2 == 0 {
+				avronull.RegisterCodecs()
+				avrotime.RegisterCodecs()
+			} else {
+				avrotime.RegisterCodecs()
+				avronull.RegisterCodecs()
+			}
+			errs <- protect(func() error {
+				s, err := avro.SchemaForType(cat.Registered{})
+				if err != nil {
+					return fmt.Errorf("SchemaForType right after RegisterCodecs() returned: %v", err)
+				}
+				b, _ := s.Marshal()
+				if string(b) != want {
+					return fmt.Errorf("schema right after RegisterCodecs() returned differs from the sequential result:\n got %s\nwant %s", b, want)
+				}
+				if _, err := s.Codec(cat.Registered{}); err != nil {
+					return fmt.Errorf("Schema.Codec right after RegisterCodecs() returned: %v", err)
+				}
+				return nil
+			})
+		}(g)
+	}
+	close(start)
+	wg.Wait()
+	close(errs)
+	for err := range errs {
+		if err != nil {
+			t.Fatalf("VERIF-FAIL property=C12 entry=c12-fresh: %v", err)
+		}
+	}
 }
